@@ -25,6 +25,28 @@ CHECKS = {
             "trusted: the generators only build finite maps whose neighbour labels are nodes (dangling labels are outside "
             "the API's notion of a map)",
             "DESIGN.md §2 C17"),
+    "C11": ("property-based testing (Hypothesis), oracle = exhaustive scan of the generating model with independent geometry "
+            "(exact rational in the plane, unit-vector spherical for lat/lon)",
+            "Generated contents on both backends, three coordinate magnitudes (unit, projected metres ~5e6, degrees) and queries "
+            "drawn relative to the content (node at r-eps along an axis, node exactly at r, long edge through the disc, near an "
+            "edge, random), with max_elmt: returned set, distances, projections, relative positions, order and truncation are "
+            "compared with a full scan. Exploration.",
+            "trusted: geom2d.py / geomsph.py; stated don't-care bands around the radius; open finding F1 recognised by signature only",
+            "DESIGN.md §2 C11"),
+    "C12": ("property-based testing (Hypothesis), differential oracle (InMemMap vs SqliteMap vs generating model)",
+            "The same integer-labelled graph is loaded into both backends; size, labels, coordinates, node and edge neighbours, "
+            "full edge listing, bounding box, box-restricted node listing (boxes with nodes exactly on the border) are compared "
+            "with each other and with the model, and the same edge-based matcher is run on both (index and probability). Exploration.",
+            "trusted: the generating adjacency model; hash-colliding edge ids (labels -1/-2) are an open finding, excluded by its "
+            "precondition and counted",
+            "DESIGN.md §2 C12"),
+    "C18": ("model-based property testing of operation histories (Hypothesis, operation sequences as data), round-trip oracle",
+            "Generated histories of single/bulk inserts with and without deferred commit/index, re-indexing, commits and 1-4 "
+            "close/reopen (or dump/load) cycles on SQLite files and InMemMap pickles; at every reopen the metric flag, the module "
+            "of the distance functions, projection settings and every listing / neighbour / spatial answer must equal the answers "
+            "before closing and the model. Exploration.",
+            "trusted: sqlite3, pickle; the reopen step first meets the documented obligations of the deferred modes",
+            "DESIGN.md §2 C18"),
     "C13": ("property-based testing (Hypothesis) + exhaustive small-grid enumeration + atheris bridge, "
             "oracle = exact rational geometry",
             "Generated float families (general, scaled, constructed parallel/collinear/touching/zero-length/"
